@@ -8,7 +8,8 @@ mkdir -p $out
 echo "repo: $VERIF_REPO $(git -C $VERIF_REPO log --oneline | head -1)"
 ./setup.sh > $out/setup.log 2>&1
 echo "== harmless rewrites =="
-for h in harmless/*/; do
+# CAMPAIGN_SEEDS: a shell glob of seeded/<id> names to restrict the run to (the refactorings are skipped then)
+for h in $( [ -z "$CAMPAIGN_SEEDS" ] && ls -d harmless/*/ ); do
   n=$(basename $h)
   git -C $VERIF_REPO apply $(pwd)/$h/patch.diff || { echo "$n: patch does not apply"; continue; }
   for i in 01 02 03 04 05 06 07 08 09 10 11 12 13 14 15 16 17 18; do
@@ -22,7 +23,7 @@ for h in harmless/*/; do
   echo "$n done"
 done
 echo "== seeded changes =="
-for d in seeded/*/; do
+for d in seeded/${CAMPAIGN_SEEDS:-*}/; do
   n=$(basename $d); C=${n%%-*}
   /venv/bin/python harness/seedtest.py $C $(pwd)/seeded/$n --keep $n > $out/seedlog_$n.txt 2>&1
   echo "$n detected=$(grep -c '"check_exit": 1' $out/seedlog_$n.txt) $(grep -o 'no-failing-input-found' $out/seedlog_$n.txt | head -1) $(grep -o 'patch does not apply' $out/seedlog_$n.txt | head -1)"
